@@ -174,9 +174,47 @@ class C04(Cfg):
     def nontrivial(self, ops, outs):
         return any(o.startswith("st=ok") for o in outs)
 
+    def oracle_updates(self, ops, outs):
+        """update stream: every field not assigned by an update keeps its value, an assigned one takes the new one,
+        no other row changes — computed from the op lines only"""
+        res = []
+        _, c = kv(ops[0])
+        tys = c.get("tys", "").split(",")
+        state = None
+        for op, out in zip(ops[1:], outs[1:]):
+            k, a = kv(op)
+            _, o = kv("x " + out)
+            if out == "st=panic":
+                res.append(("panic", op[:100])); continue
+            if k == "new":
+                state = [None if t == "-" else parse_val(t) for t in a.get("v", "").split(";")]
+                assigned = set(range(len(state)))
+            elif k == "upd" and state is not None:
+                assigned = set()
+                for t in [x for x in a.get("set", "").split(";") if x]:
+                    j, v = t.split(":", 1); state[int(j)] = parse_val(v); assigned.add(int(j))
+            else:
+                continue
+            if o.get("st") != "ok":
+                res.append(("admissible-refused", "%s: %s" % (o.get("st"), op[:100]))); continue
+            got = o.get("row", "").split(";")
+            want = ["N" if v is None else obs_of(v) for v in state]
+            for j, (g, w_) in enumerate(zip(got, want)):
+                if g != w_:
+                    sig = "roundtrip" if j in assigned else "update-loses-other-fields"
+                    res.append((sig, "%s: field f%d (%s) reads %s, expected %s" % (k, j, tys[j] if j < len(tys) else "?", g[:40], w_[:40])))
+            if len(got) != len(want): res.append(("roundtrip", "row has %d fields" % len(got)))
+            if o.get("oth") != "same": res.append(("other-row-changed", out[:80]))
+        seen, uniq = set(), []
+        for s_, d in res:
+            if s_ not in seen:
+                seen.add(s_); uniq.append((s_, d))
+        return uniq
+
     def oracle(self, ops, outs):
         res = []
         k, c = kv(ops[0])
+        if k == "case" and c.get("e") == "c04u": return self.oracle_updates(ops, outs)
         if k != "case" or c.get("e") != "c04": return res
         ty, pos, fpos = c.get("ty"), c.get("pos"), c.get("fpos")
         shapes = {}      # (which, null?) -> (shape, op index)
